@@ -144,6 +144,25 @@ def vars_of(I, *objs):
     return out
 
 
+def _value_of(values, name):
+    """model value of a named variable; octets of the symbolic frame `f<i>` are read from values["frame"]; a variable the query
+    does not constrain is 0, as in the frame builder of the replays"""
+    if name in values:
+        return values[name]
+    import re
+    m = re.match(r"^f(\d+)$", name)
+    fr = values.get("frame")
+    if m and fr is not None:
+        if isinstance(fr, str):
+            try:
+                fr = bytes.fromhex(fr)
+            except ValueError:
+                fr = None
+        if fr is not None and int(m.group(1)) < len(fr):
+            return fr[int(m.group(1))]
+    return 0
+
+
 def concretize(o, values):
     """symbolic object tree + model values -> real instance of the repository class"""
     import dataclasses
@@ -161,12 +180,12 @@ def concretize(o, values):
         return bytes(concretize(b, values) for b in o.bs)
     if isinstance(o, z3.ExprRef):
         if z3.is_const(o) and o.decl().kind() == z3.Z3_OP_UNINTERPRETED:
-            return values[o.decl().name()]
+            return _value_of(values, o.decl().name())
         # closed term over the variables: evaluate by substitution
         vs = vars_of(None, o)
         sub = []
         for n, t in vs.items():
-            val = values[n]
+            val = _value_of(values, n)
             if z3.is_bool(t):
                 sub.append((t, z3.BoolVal(val)))
             elif isinstance(t, z3.BitVecRef):
